@@ -139,6 +139,7 @@ Verdict_t(ev) ==
               <<"accept",    (cls \in {"reject", "outside"} => ~ev.ok) /\ (cls = "inside" => ev.ok)>>,
               <<"nilret",    (~ev.ok /\ cls \in {"reject", "outside"}) => ev.nilret>>,
               <<"parse-val", (ev.ok /\ p.ok) => AbsEq(ev.res, p)>>,
+              <<"parse-pre", ev.ok => (SameRepr(ev.res, ev.res2) /\ ev.res2.cs = ev.res.cs)>>,
               <<"parse-wf",  ev.ok => WFParsed(ev.res)>> >>)
        [] ev.tk = "ctxparse" ->
          LET p == ParseSpec(ev.s)
